@@ -3,36 +3,11 @@ C40 — property theorems for the two-thread model of `SelectorThread` (C40/Mode
 All theorems are about every reachable state: any number of fds, any interleaving of the atomic steps of the loop
 thread, the selector thread and the environment (invariant induction over `step`).
 -/
-import TornadoModel.C40.Lemmas
+import TornadoModel.C40.Live
+import TornadoModel.C40.Refute
 namespace TornadoModel.C40
 
-/-! ### token uniqueness -/
-def tokA : Option Sets → Nat | some _ => 1 | none => 0
-def tokS : SPc → Nat | .selecting _ => 1 | .selected _ => 1 | _ => 0
-def tokL : LPc → Nat | .handling _ _ => 1 | _ => 0
-
-@[simp] theorem tokA_some (a : Sets) : tokA (some a) = 1 := rfl
-@[simp] theorem tokA_none : tokA none = 0 := rfl
-@[simp] theorem tokS_idle : tokS .idle = 0 := rfl
-@[simp] theorem tokS_exited : tokS .exited = 0 := rfl
-@[simp] theorem tokS_selecting (a : Sets) : tokS (.selecting a) = 1 := rfl
-@[simp] theorem tokS_selected (a : Sets) : tokS (.selected a) = 1 := rfl
-@[simp] theorem tokL_fresh : tokL .fresh = 0 := rfl
-@[simp] theorem tokL_running : tokL .running = 0 := rfl
-@[simp] theorem tokL_handling (a b : List Fd) : tokL (.handling a b) = 1 := rfl
-@[simp] theorem tokL_closing : tokL .closing = 0 := rfl
-@[simp] theorem tokL_joining : tokL .joining = 0 := rfl
-@[simp] theorem tokL_joined : tokL .joined = 0 := rfl
-@[simp] theorem tokL_closed : tokL .closed = 0 := rfl
-
-theorem tokA_zero {a : Option Sets} (h : tokA a = 0) : a = none := by
-  cases a <;> simp_all
-
-/-- number of places that currently hold "the right to run one select": arguments posted in `_select_args`, the
-selector thread between taking them and reporting, a `_handle_select` callback queued on the loop, the loop thread
-inside `_handle_select`. -/
-def tokens (s : St) : Nat := tokA s.args + tokS s.spc + s.queue.length + tokL s.lpc
-
+/-! ### token uniqueness (`tokens` is defined in Lemmas.lean) -/
 def InvTok (s : St) : Prop := s.failed = false ∧ tokens s = (if s.lpc = .fresh then 0 else 1)
 
 theorem invTok_init : InvTok init := by simp [InvTok, tokens, init]
@@ -960,7 +935,7 @@ theorem join_returns (s : St) (hl : s.lpc = .joining) (hs : s.spc = .exited) :
   simp [step, hl, hs]
 
 /-- `close()` can always send its wake-up -/
-theorem close_can_wake (s : St) (hr : Reach s) (hl : s.lpc = .closing) : ∃ s', step s .wake = some s' := by
+theorem close_can_wake (s : St) (_hr : Reach s) (hl : s.lpc = .closing) : ∃ s', step s .wake = some s' := by
   cases hp : s.pendingWake with
   | true => exact ⟨{ s with bytes := s.bytes + 1, pendingWake := false }, by simp [step, hp]⟩
   | false => exact ⟨{ s with bytes := s.bytes + 1, lpc := .joining }, by simp [step, hp, hl]⟩
@@ -1070,13 +1045,238 @@ theorem ready_fd_forces_progress (s : St) (hr : Reach s) (hl : s.lpc = .running)
     · rw [hR fd hfd hne] at hrd; exact absurd hrd (by simp)
     · rw [hW fd hfd] at hrd; exact absurd hrd (by simp)
 
-/-- stretch goal (not proved; covered by the tie's settle-phase oracle): under weak fairness of both threads an fd
-that stays registered and ready is dispatched within two token rounds. -/
+/-! ### liveness: no lost event -/
+
+/-- **some thread can always move**: in every reachable state in which a registered user fd is readable (loop thread
+between callbacks or inside `_handle_select`, `close()` not begun), a progress step of the selector thread or of the
+loop thread is enabled — the selector/loop pair never deadlocks while there is work to do. -/
+theorem watched_can_move (fd : Fd) (s : St) (hr : Reach s) (hw : Watch fd s) :
+    ∃ ev s', ev.isSys = true ∧ step s ev = some s' := by
+  cases hp : s.pendingWake with
+  | true => exact ⟨.wake, { s with bytes := s.bytes + 1, pendingWake := false }, rfl, by simp [step, hp]⟩
+  | false =>
+    rcases hw.lpc with hl | ⟨tR, tW, hl⟩
+    · rcases ready_fd_forces_progress s hr hl hp hw.op (Or.inl ⟨fd, hw.reg, hw.ne, hw.rdy⟩) with
+        ⟨ev, s', hS, hst⟩ | ⟨res, s', hst⟩
+      · exact ⟨ev, s', isSys_of_isS ev hS, hst⟩
+      · exact ⟨.handleBegin res, s', rfl, hst⟩
+    · cases hsr : skipUnreg s.readers tR with
+      | cons x rest =>
+        by_cases hx : x = waker
+        · exact ⟨.consume (min s.bytes 1024), { s with lpc := .handling rest tW, bytes := s.bytes - min s.bytes 1024 },
+            rfl, by simp [step, hp, hl, hsr, hx]⟩
+        · exact ⟨.dispatch false x, { s with lpc := .handling rest tW }, rfl, by simp [step, hp, hl, hsr, hx]⟩
+      | nil =>
+        cases hsw : skipUnreg s.writers tW with
+        | cons x rest =>
+          exact ⟨.dispatch true x, { s with lpc := .handling [] rest }, rfl, by simp [step, hp, hl, hsr, hsw]⟩
+        | nil =>
+          exact ⟨.post (current s),
+            { s with lpc := .running, args := some (current s), failed := (s.failed || s.args.isSome) },
+            rfl, by simp [step, hp, hl, hsr, hsw]⟩
+
+/-- **no lost event (bounded progress)**: from every reachable state in which `fd` is a registered readable user fd
+(loop thread between callbacks or inside `_handle_select`, not closing) there is a schedule of at most `rank fd s`
+progress steps of the two threads — no help from the environment or from user calls — that runs `fd`'s callback. -/
+theorem no_lost_event (s : St) (hr : Reach s) (fd : Fd) (hw : Watch fd s) :
+    ∃ evs s', run s evs = some s' ∧ evs.length ≤ rank fd s ∧ Ev.dispatch false fd ∈ evs ∧
+      ∀ e ∈ evs, e.isSys = true :=
+  no_lost_event_aux fd (watched_can_move fd) (rank fd s) s hr hw (Nat.le_refl _)
+
+/-- a user call that leaves `fd` registered keeps the situation and raises the rank by at most 2 (the wake-up it owes,
+and one more callback in the fresh round) -/
+theorem rank_mut (fd : Fd) (s : St) (ev : Ev) (s' : St) (hr : Reach s) (hw : Watch fd s) (hmut : ev.isMut = true)
+    (hkeep : ev ≠ .removeReader fd true ∧ ev ≠ .removeReader fd false) (h : step s ev = some s') :
+    Watch fd s' ∧ rank fd s' ≤ rank fd s + 2 := by
+  obtain ⟨hne, hreg, hrdy, hlpc, hop⟩ := hw
+  have htok : tokens s = 1 := by
+    have := token_unique s hr
+    rcases hlpc with hl | ⟨a, b, hl⟩ <;> simpa [hl] using this
+  have hjoin : ¬ (s.lpc = .joined) := by
+    rcases hlpc with hl | ⟨a, b, hl⟩ <;> simp [hl]
+  cases ev with
+  | addReader x =>
+    simp only [step] at h
+    split at h
+    · rename_i hc
+      simp only [Bool.and_eq_true, lMayMutate_iff] at hc
+      simp only [Option.some.injEq] at h; subst h
+      refine ⟨⟨hne, mem_insertKey _ _ _ hreg, hrdy, hlpc, hop⟩, ?_⟩
+      have := rank_le_of fd s { s with readers := insertKey s.readers x, pendingWake := true } rfl rfl rfl rfl
+        (length_insertKey _ _) hc.1.1
+      omega
+    · simp at h
+  | addWriter x =>
+    simp only [step] at h
+    split at h
+    · rename_i hc
+      simp only [lMayMutate_iff] at hc
+      simp only [Option.some.injEq] at h; subst h
+      refine ⟨⟨hne, hreg, hrdy, hlpc, hop⟩, ?_⟩
+      have := rank_le_of fd s { s with writers := insertKey s.writers x, pendingWake := true } rfl rfl rfl rfl
+        (Nat.le_succ _) hc.1
+      omega
+    · simp at h
+  | removeReader x found =>
+    simp only [step] at h
+    split at h
+    · rename_i hc
+      simp only [Bool.and_eq_true, beq_iff_eq] at hc
+      exact absurd hc.1.1.1 hjoin
+    · split at h
+      · rename_i hc
+        simp only [Bool.and_eq_true, lMayMutate_iff, bne_iff_ne, ne_eq, beq_iff_eq] at hc
+        obtain ⟨⟨⟨hp, -⟩, -⟩, -⟩ := hc
+        simp only [Option.some.injEq] at h; subst h
+        have hxf : fd ≠ x := by
+          intro e; subst e
+          cases found
+          · exact hkeep.2 rfl
+          · exact hkeep.1 rfl
+        refine ⟨⟨hne, mem_filter_ne _ _ _ hreg hxf, hrdy, hlpc, hop⟩, ?_⟩
+        have hlen : (s.readers.filter (· != x)).length ≤ s.readers.length + 1 :=
+          Nat.le_trans (List.length_filter_le _ _) (Nat.le_succ _)
+        have := rank_le_of fd s { s with readers := s.readers.filter (· != x), pendingWake := found } rfl rfl rfl rfl
+          hlen hp
+        omega
+      · simp at h
+  | removeWriter x found =>
+    simp only [step] at h
+    split at h
+    · rename_i hc
+      simp only [Bool.and_eq_true, lMayMutate_iff, beq_iff_eq] at hc
+      simp only [Option.some.injEq] at h; subst h
+      refine ⟨⟨hne, hreg, hrdy, hlpc, hop⟩, ?_⟩
+      have := rank_le_of fd s { s with writers := s.writers.filter (· != x), pendingWake := found } rfl rfl rfl rfl
+        (Nat.le_succ _) hc.1.1
+      omega
+    · simp at h
+  | _ => simp [Ev.isMut] at hmut
+
+/-- **no lost event (every schedule)**: along *any* execution from a reachable watched state made of progress steps
+of the two threads, environment steps that leave `fd` readable and user calls that leave it registered — as long as
+`fd`'s callback has not run, the rank has dropped by the number of progress steps taken, up to 2 per user call … -/
+theorem rank_run (fd : Fd) : ∀ (evs : List Ev) (s s' : St), Reach s → Watch fd s → run s evs = some s' →
+    (∀ e ∈ evs, Allowed fd e) → Ev.dispatch false fd ∉ evs →
+    Watch fd s' ∧ rank fd s' + evs.countP Ev.isSys ≤ rank fd s + 2 * evs.countP Ev.isMut := by
+  intro evs
+  induction evs with
+  | nil =>
+    intro s s' _ hw hrun _ _
+    simp only [run, Option.some.injEq] at hrun
+    subst hrun
+    exact ⟨hw, by simp⟩
+  | cons e es ih =>
+    intro s s' hr hw hrun hall hno
+    simp only [run] at hrun
+    cases hst : step s e with
+    | none => simp [hst] at hrun
+    | some s1 =>
+      rw [hst] at hrun
+      have hne : e ≠ .dispatch false fd := fun h => hno (by rw [h]; exact List.mem_cons_self)
+      have hno' : Ev.dispatch false fd ∉ es := fun h => hno (List.mem_cons_of_mem _ h)
+      have hall' : ∀ x ∈ es, Allowed fd x := fun x hx => hall x (List.mem_cons_of_mem _ hx)
+      have hr1 : Reach s1 := reach_step hr hst
+      simp only [List.countP_cons]
+      rcases hall e List.mem_cons_self with hsys | ⟨henv, hkeep⟩ | ⟨hmut, hkeep⟩
+      · rcases rank_step fd s e s1 hw hsys hst with he | ⟨hw1, hlt⟩
+        · exact absurd he hne
+        · obtain ⟨hw2, hle⟩ := ih s1 s' hr1 hw1 hrun hall' hno'
+          refine ⟨hw2, ?_⟩
+          simp only [hsys, sys_not_mut e hsys, ↓reduceIte, Bool.false_eq_true]
+          omega
+      · obtain ⟨hw1, heq⟩ := rank_env fd s e s1 hw henv hkeep hst
+        obtain ⟨hw2, hle⟩ := ih s1 s' hr1 hw1 hrun hall' hno'
+        refine ⟨hw2, ?_⟩
+        simp only [env_not_sys e henv, env_not_mut e henv, ↓reduceIte, Bool.false_eq_true]
+        omega
+      · obtain ⟨hw1, hle1⟩ := rank_mut fd s e s1 hr hw hmut hkeep hst
+        obtain ⟨hw2, hle⟩ := ih s1 s' hr1 hw1 hrun hall' hno'
+        refine ⟨hw2, ?_⟩
+        simp only [hmut, mut_not_sys e hmut, ↓reduceIte, Bool.false_eq_true]
+        omega
+
+/-- … hence every such execution containing more than `rank fd s + 2·(user calls)` progress steps has run `fd`'s
+callback: whatever the scheduler does, as long as the threads keep taking steps (and by `watched_can_move` one always
+can), the event is delivered within that many progress steps. -/
+theorem every_schedule_dispatches (fd : Fd) (s s' : St) (evs : List Ev) (hr : Reach s) (hw : Watch fd s)
+    (hrun : run s evs = some s') (hall : ∀ e ∈ evs, Allowed fd e)
+    (hmany : rank fd s + 2 * evs.countP Ev.isMut < evs.countP Ev.isSys) : Ev.dispatch false fd ∈ evs := by
+  apply Classical.byContradiction
+  intro hno
+  have := (rank_run fd evs s s' hr hw hrun hall hno).2
+  omega
+
+/-- **no lost event, under fairness**: take any infinite execution from a reachable state in which `fd` is a registered
+readable user fd, made of progress steps of the two threads, arbitrary environment steps that leave `fd` readable and
+at most `M` user calls (none of which unregisters `fd`).  Assume the scheduler is fair in the weakest sense: whenever
+a progress step of some thread is enabled, some progress step is eventually taken.  Then `fd`'s callback runs — no
+later than the `rank fd s + 2·M + 1`-th progress step. -/
+theorem no_lost_event_fair (st : Nat → St) (ev : Nat → Ev) (hok : ∀ i, step (st i) (ev i) = some (st (i + 1)))
+    (hr : Reach (st 0)) (fd : Fd) (hw : Watch fd (st 0)) (hall : ∀ i, Allowed fd (ev i))
+    (M : Nat) (hM : ∀ n, (pref ev n).countP Ev.isMut ≤ M)
+    (hfair : ∀ i, (∃ e s', e.isSys = true ∧ step (st i) e = some s') → ∃ j, i ≤ j ∧ (ev j).isSys = true) :
+    ∃ j, ev j = .dispatch false fd ∧ (pref ev j).countP Ev.isSys ≤ rank fd (st 0) + 2 * M := by
+  have hallp : ∀ n, ∀ e ∈ pref ev n, Allowed fd e := by
+    intro n e he
+    obtain ⟨j, -, hj⟩ := mem_pref he
+    rw [← hj]; exact hall j
+  have hreach : ∀ n, Reach (st n) := by
+    intro n
+    induction n with
+    | zero => exact hr
+    | succ n ih => exact reach_step ih (hok n)
+  -- some dispatch happens
+  have hex : ∃ j, ev j = .dispatch false fd := by
+    apply Classical.byContradiction
+    intro hno
+    have hnop : ∀ n, Ev.dispatch false fd ∉ pref ev n := by
+      intro n hm
+      obtain ⟨j, -, hj⟩ := mem_pref hm
+      exact hno ⟨j, hj⟩
+    have hwn : ∀ n, Watch fd (st n) :=
+      fun n => (rank_run fd (pref ev n) (st 0) (st n) hr hw (run_pref st ev hok n) (hallp n) (hnop n)).1
+    have hfair' : ∀ i, ∃ j, i ≤ j ∧ (ev j).isSys = true :=
+      fun i => hfair i (watched_can_move fd (st i) (hreach i) (hwn i))
+    obtain ⟨n, hn⟩ := count_pref_unbounded ev hfair' (rank fd (st 0) + 2 * M + 1)
+    have := hM n
+    exact hnop n (every_schedule_dispatches fd (st 0) (st n) (pref ev n) hr hw (run_pref st ev hok n) (hallp n)
+      (by omega))
+  -- the first one comes within the bound
+  obtain ⟨j, hj, hfirst⟩ := exists_first _ hex
+  refine ⟨j, hj, ?_⟩
+  have hnop : Ev.dispatch false fd ∉ pref ev j := by
+    intro hm
+    obtain ⟨i, hi, hie⟩ := mem_pref hm
+    exact hfirst i hi hie
+  have := (rank_run fd (pref ev j) (st 0) (st j) hr hw (run_pref st ev hok j) (hallp j) hnop).2
+  have := hM j
+  omega
+
+/-- the statement first aimed at: the same with the *constant* bound 16, whatever the number of registered fds -/
 def no_lost_event_goal : Prop :=
   ∀ (s : St), Reach s → ∀ fd, fd ≠ waker → fd ∈ s.readers → s.readyR.contains fd = true →
     s.lpc = .running → s.closingFlag = false →
     ∃ evs s', run s evs = some s' ∧ evs.length ≤ 16 ∧ Ev.dispatch false fd ∈ evs ∧
       (∀ e ∈ evs, e.isS = true ∨ (match e with | .handleBegin _ | .dispatch _ _ | .consume _ | .post _ | .wake => true | _ => false) = true)
+
+/-- it holds exactly as stated wherever the rank is at most 16 (decidable side condition) … -/
+theorem no_lost_event_partial (s : St) (hr : Reach s) (fd : Fd) (hne : fd ≠ waker) (hreg : fd ∈ s.readers)
+    (hrdy : s.readyR.contains fd = true) (hl : s.lpc = .running) (hc : s.closingFlag = false)
+    (hsmall : rank fd s ≤ 16) :
+    ∃ evs s', run s evs = some s' ∧ evs.length ≤ 16 ∧ Ev.dispatch false fd ∈ evs ∧
+      (∀ e ∈ evs, e.isS = true ∨ (match e with | .handleBegin _ | .dispatch _ _ | .consume _ | .post _ | .wake => true | _ => false) = true) := by
+  obtain ⟨evs, s', hrun, hlen, hmem, hall⟩ := no_lost_event s hr fd ⟨hne, hreg, hrdy, Or.inl hl, hc⟩
+  exact ⟨evs, s', hrun, by omega, hmem, fun e he => (isSys_iff e).1 (hall e he)⟩
+
+/-- … and is false in general: one `_handle_select` round runs its callbacks in order, so with 16 readable fds
+registered the last one needs at least 17 steps. -/
+theorem no_lost_event_refuted : ¬ no_lost_event_goal := by
+  intro hg
+  obtain ⟨evs, s', hrun, hlen, hmem, hall⟩ :=
+    hg Refute.s0 Refute.reach_s0 Refute.target (by decide) (by decide) (by decide) rfl rfl
+  have := Refute.s0_needs_17 evs s' hrun (fun e he => (isSys_iff e).2 (hall e he)) hmem
+  omega
 
 example : Reach init := ⟨[], rfl⟩
 
@@ -1088,5 +1288,91 @@ example : ∃ s, Reach s ∧ s.spc = .selecting ⟨[0], []⟩ ∧ (⟨[0], []⟩
 example : ∃ s, Reach s ∧ s.lpc = .joining ∧ s.spc = .selecting ⟨[0], []⟩ :=
   ⟨_, ⟨[.start ⟨[0], []⟩, .take ⟨[0], []⟩, .selected ⟨[0], []⟩, .report ⟨[0], []⟩, .handleBegin ⟨[0], []⟩,
         .consume 1, .post ⟨[0], []⟩, .take ⟨[0], []⟩, .setClosing, .wake], rfl⟩, rfl, rfl⟩
+
+/-! ### non-vacuity of the liveness theorems -/
+
+/-- a small watched state: fd 3 registered and readable while the posted select arguments are still the stale `[0]` -/
+def exSmall : List Ev := [.start ⟨[0], []⟩, .addReader 3, .wake, .ready false 3]
+
+/-- `Watch` is satisfiable in a reachable state (hypotheses of `watched_can_move`, `no_lost_event`, `rank_step`,
+`no_lost_event_partial`); there the rank is 12 ≤ 16: stale round (take, selected, report, handleBegin, consume, post)
++ fresh round (take, selected, report, handleBegin, consume? no: bytes are gone, dispatch) -/
+example : ∃ s, run init exSmall = some s ∧ Watch 3 s ∧ s.lpc = .running ∧ rank 3 s = 12 :=
+  ⟨_, rfl, ⟨by decide, by decide, by decide, Or.inl rfl, rfl⟩, rfl, by decide⟩
+
+/-- … and in the 16-fd state of the refutation the rank is 21 (the real minimum there is 20) -/
+example : Reach Refute.s0 ∧ Watch 16 Refute.s0 ∧ rank 16 Refute.s0 = 21 :=
+  ⟨Refute.reach_s0, ⟨by decide, by decide, by decide, Or.inl rfl, rfl⟩, by decide⟩
+
+/-- an execution with environment noise and a user call that satisfies the hypotheses of `rank_run` /
+`every_schedule_dispatches`: one user call, 15 progress steps > rank 12 + 2, and indeed fd 3 is dispatched -/
+def exRun : List Ev :=
+  [.addWriter 7, .wake, .take ⟨[0], []⟩, .ready true 4, .selected ⟨[0], []⟩, .report ⟨[0], []⟩, .handleBegin ⟨[0], []⟩,
+   .consume 3, .unready true 4, .post ⟨[0, 3], [7]⟩, .take ⟨[0, 3], [7]⟩, .selected ⟨[3], []⟩, .report ⟨[3], []⟩,
+   .ready false 5, .handleBegin ⟨[3], []⟩, .dispatch false 3, .post ⟨[0, 3], [7]⟩, .take ⟨[0, 3], [7]⟩,
+   .selected ⟨[3], []⟩]
+
+example : ∃ s s', run init exSmall = some s ∧ run s exRun = some s' ∧ (∀ e ∈ exRun, Allowed 3 e) ∧
+    rank 3 s + 2 * exRun.countP Ev.isMut < exRun.countP Ev.isSys ∧ Ev.dispatch false 3 ∈ exRun :=
+  ⟨_, _, rfl, rfl, by decide, by decide, by decide⟩
+
+/-- a fair infinite execution (hypotheses of `no_lost_event_fair`): fd 3 stays readable, the six-step round
+take → selected → report → handleBegin → dispatch → post repeats for ever -/
+def cyc0 : St :=
+  { readers := [0, 3], writers := [], args := some ⟨[0, 3], []⟩, closingFlag := false, bytes := 0, queue := [],
+    spc := .idle, lpc := .running, pendingWake := false, readyR := [3], readyW := [], failed := false }
+
+def cycSt (i : Nat) : St :=
+  match i % 6 with
+  | 0 => cyc0
+  | 1 => { cyc0 with args := none, spc := .selecting ⟨[0, 3], []⟩ }
+  | 2 => { cyc0 with args := none, spc := .selected ⟨[3], []⟩ }
+  | 3 => { cyc0 with args := none, queue := [⟨[3], []⟩] }
+  | 4 => { cyc0 with args := none, lpc := .handling [3] [] }
+  | _ => { cyc0 with args := none, lpc := .handling [] [] }
+
+def cycEv (i : Nat) : Ev :=
+  match i % 6 with
+  | 0 => .take ⟨[0, 3], []⟩
+  | 1 => .selected ⟨[3], []⟩
+  | 2 => .report ⟨[3], []⟩
+  | 3 => .handleBegin ⟨[3], []⟩
+  | 4 => .dispatch false 3
+  | _ => .post ⟨[0, 3], []⟩
+
+example : (∀ i, step (cycSt i) (cycEv i) = some (cycSt (i + 1))) ∧ Reach (cycSt 0) ∧ Watch 3 (cycSt 0) ∧
+    (∀ i, Allowed 3 (cycEv i)) ∧ (∀ n, (pref cycEv n).countP Ev.isMut ≤ 0) ∧
+    (∀ i, (∃ e s', e.isSys = true ∧ step (cycSt i) e = some s') → ∃ j, i ≤ j ∧ (cycEv j).isSys = true) := by
+  have hsys : ∀ i, (cycEv i).isSys = true := by
+    intro i
+    have h : i % 6 = 0 ∨ i % 6 = 1 ∨ i % 6 = 2 ∨ i % 6 = 3 ∨ i % 6 = 4 ∨ i % 6 = 5 := by omega
+    rcases h with h | h | h | h | h | h <;> simp [cycEv, h, Ev.isSys]
+  have hnomut : ∀ n, (pref cycEv n).countP Ev.isMut ≤ 0 := by
+    intro n
+    apply Nat.le_of_eq
+    apply List.countP_eq_zero.2
+    intro e he
+    obtain ⟨j, -, hj⟩ := mem_pref he
+    rw [← hj, sys_not_mut _ (hsys j)]
+    simp
+  refine ⟨?_, ?_, ⟨by decide, by decide, by decide, Or.inl rfl, rfl⟩, fun i => Or.inl (hsys i), hnomut,
+    fun i _ => ⟨i, Nat.le_refl _, hsys i⟩⟩
+  · intro i
+    have h : i % 6 = 0 ∨ i % 6 = 1 ∨ i % 6 = 2 ∨ i % 6 = 3 ∨ i % 6 = 4 ∨ i % 6 = 5 := by omega
+    rcases h with h | h | h | h | h | h
+    · have h' : (i + 1) % 6 = 1 := by omega
+      simp only [cycSt, cycEv, h, h']; decide
+    · have h' : (i + 1) % 6 = 2 := by omega
+      simp only [cycSt, cycEv, h, h']; decide
+    · have h' : (i + 1) % 6 = 3 := by omega
+      simp only [cycSt, cycEv, h, h']; decide
+    · have h' : (i + 1) % 6 = 4 := by omega
+      simp only [cycSt, cycEv, h, h']; decide
+    · have h' : (i + 1) % 6 = 5 := by omega
+      simp only [cycSt, cycEv, h, h']; decide
+    · have h' : (i + 1) % 6 = 0 := by omega
+      simp only [cycSt, cycEv, h, h']; decide
+  · exact ⟨exSmall ++ [.take ⟨[0], []⟩, .selected ⟨[0], []⟩, .report ⟨[0], []⟩, .handleBegin ⟨[0], []⟩, .consume 2,
+      .post ⟨[0, 3], []⟩], by decide⟩
 
 end TornadoModel.C40
